@@ -4,14 +4,16 @@ PROP = dict(
     title="Gas is charged monotonically and never exceeds the limit",
     family="gas", harness="gas", run_vo="Run/Gas.vo",
     theorems=["C26_model_is_spec", "C26_invariant", "C26_charge_ok", "C26_charge_out_of_gas", "C26_resolve", "C26_forward_bound",
-              "C26_credit_back", "C26_script_result", "C26_base_cost_ge_1", "C26_tables_wellformed"],
+              "C26_credit_back", "C26_script_result", "C26_base_cost_ge_1", "C26_tables_wellformed",
+              "C26_charge_sequence", "C26_out_of_gas_point", "C26_sequences_are_spec"],
     open_statements=[
-        "'each instruction consumes exactly the gas the schedule prescribes for its arguments' is proved for the charge operation and the "
-        "cost resolution, and tied per opcode by the generated table + trace validation; for the 22 opcodes with further internal charges "
-        "(CALL, CCP, CROO, CSIZ, LDC, BSIZ, BLDD, MINT, TR and the 13 storage instructions) the checker only bounds the total charge from below by "
-        "the first charge (hot/cold storage reads and new-bytes charges are C26_schedule material of DESIGN.md that is not modelled)",
-        "the theorems are about abstract operation histories (Charge/Call/Return); that the interpreter only ever performs these operations on "
-        "$cgas/$ggas is established by trace validation (testing), not by a model of all handlers",
+        "the theorems are about abstract operation histories (Charge/Call/Return) and charge sequences; that the interpreter performs exactly the "
+        "generated sequence on $cgas/$ggas is established per step by trace replay (testing), not by a Gallina model of the handlers",
+        "exact totals use quantities observed by the harness right before the step (code/blob size of the operand, existence of the credited balance "
+        "entry, and for the 13 storage instructions the list of slot reads/writes/clears with hot/cold state and value lengths, computed by the harness from "
+        "VM memory, the storage and the VM's slot cache); Coq checks the list's shape per opcode and recomputes every amount, but the lengths themselves are "
+        "trusted observations; slot ranges above 4096 are not expanded (not generated)",
+        "ECAL charges nothing and is not generated; ECOP/EPAR/NIOP are single charges in the table but are not generated",
     ],
     translators=["flowtable", "gastable"],
     trusted_base=[
@@ -25,17 +27,21 @@ PROP = dict(
     assumptions=["global gas < 2^64 (a register)", "units_per_gas <> 0 for LightOperation costs (DependentCost::resolve panics the host otherwise; "
                  "the generated default schedule is checked to satisfy it)"],
     rule=("generated programs (nested calls with forwarded gas $cgas / half / 2^64-1 / small constants, self-recursion to depth 0..3, returns, reverts, panics) "
-          "under the default, unit and randomised schedules; every program once with ample gas and 2-3 times with a limit drawn from {gas used, used-1, <40, "
+          "under the default, unit and randomised schedules; directed scripts/contracts for LDC (modes 0,1,2), CCP, CSIZ, CROO, BSIZ, BLDD, CALL, TR, MINT/BURN and all 13 "
+          "storage instructions with requested lengths much larger / +9 / equal / +1 / -1 / 0 / unaligned relative to the stored length, offsets beyond the end, empty and "
+          "undeployed contracts/blobs, first-time vs existing balance entries, hot vs cold slots, each re-run with gas limits cost-1 / cost / cost+1 of the target instruction; "
+          "every generated program once with ample gas and 2-3 times with a limit drawn from {gas used, used-1, <40, "
           "uniform below used} so that gas runs out mid-instruction; garbage scripts; per step the Coq checker replays Charge/Call/Return of the model from the "
-          "initial state (limit, limit, []) and compares ($cgas, $ggas, depth, saved context gas) and the invariant; distinct = (schedule, length, hash of ggas/opcode sequence); "
+          "initial state (limit, limit, []), recomputes the exact total charge of the step from the generated charge sequence (panicked steps: a prefix; OutOfGas: some charge must exceed what is left) and compares ($cgas, $ggas, depth, saved context gas) and the invariant; distinct = (schedule, length, hash of ggas/opcode sequence); "
           "non-trivial = at least 5 steps"),
     level_text=("Machine-checked proof (Coq) over all operation histories (induction on the event list) that context gas + gas kept by suspended callers "
                 "<= global gas is invariant, global gas never increases, a charge is exact or leaves (0, ggas-cgas) with OutOfGas, forwarding is "
                 "min(cgas, requested) and is credited back exactly on return, the unchecked subtraction and the ContextGasUnderflow/Overflow/GlobalGasUnderflow "
                 "bugs are unreachable, gas_used = limit - ggas; dependent cost resolution equals the capped formula; every opcode's first charge (regenerated "
                 "from opcodes_impl.rs on each run) is >= 1 under the default schedule; tied to the code by replaying every traced step"),
-    level_note=("Trusted: Coq kernel; the translators; the hand-written model tied by trace replay (testing). Exact per-instruction charge is checked for the "
-                "opcodes whose handler charges once (fixed or dependent on a register/immediate); opcodes with internal charges are only bounded from below."),
+    level_note=("Trusted: Coq kernel; the translators; the hand-written model tied by trace replay (testing); the harness's pre-step observations. The full charge "
+                "sequence of every handler (which cost field, on which quantity, under which condition) is regenerated from the Rust sources on every run and proved equal to "
+                "the specified table (C26_sequences_are_spec), and the exact total of every traced step is recomputed from it."),
     technique="Coq proof by induction over operation histories with a gas invariant + generated gas table + step-wise trace replay",
     design_ref="6/C26",
     quick_shards=8,
